@@ -47,10 +47,15 @@ Proof.
 Qed.
 Print Assumptions C02_refuted.
 
-(* Partial: histories in which no action outputs a directory (executable classifier defect_class). *)
+(* Partial: histories in which no action outputs a directory (executable classifier defect_class), no filegroup links a
+   source directory (fg_dir_free) and no two turns of a target whose command reads the NAMES of its tools' outputs have the
+   same rule key and source key but different tool output paths (executable classifier tool_rename_free: the cache key names
+   the trees of the tool outputs, not their paths - the shape of C01_refuted_tools reaches the cache the same way).  TOOLS ARE
+   INSIDE THE THEOREM: entries stored and restored for targets with tools whose outputs change content, appear, disappear or
+   are renamed with other content. *)
 Theorem C02_partial :
   (forall (h : list hstep) (r : repo) (req : list str),
-     wf_history (h ++ [HBuild true r req]) -> tool_free_history (h ++ [HBuild true r req]) = true ->
+     wf_history (h ++ [HBuild true r req]) -> tool_rename_free (h ++ [HBuild true r req]) = true ->
      od_free (h ++ [HBuild true r req]) ->
      (forall t, In t (history_targets (h ++ [HBuild true r req])) -> defect_class t = None) ->
      fg_dir_free (h ++ [HBuild true r req]) = true ->
@@ -81,7 +86,7 @@ Theorem C02_partial_path_inj :
     (forall c, good (File false c)) ->
     (forall t ins news, U t -> Forall good (map snd ins) -> result t ins = Some news -> Forall good (map snd news)) ->
     forall h r req,
-      forallb step_wf (h ++ [HBuild true r req]) = true -> tool_free_history (h ++ [HBuild true r req]) = true ->
+      forallb step_wf (h ++ [HBuild true r req]) = true -> tool_rename_free (h ++ [HBuild true r req]) = true ->
       od_free (h ++ [HBuild true r req]) ->
       (forall t, In t (history_targets (h ++ [HBuild true r req])) -> U t) ->
       (forall n, In n (history_fg_srcs (h ++ [HBuild true r req])) -> good n) ->
@@ -92,7 +97,7 @@ Theorem C02_partial_path_inj :
          outs_of (rn_st cached) t = outs_of (rn_st clean) t.
 Proof.
   intros U good H1 H2 H3 H4 h r req Hwf Htf Hod HU Hgs.
-  destruct (incremental_is_clean U good H1 H2 H3 H4 true h r req (wf_t_of _ Hwf Htf) HU Hgs (od_free_quiet _ _ Hod)) as [Hf Ho].
+  destruct (incremental_is_clean_tools U good H1 H2 H3 H4 true h r req Hwf Htf HU Hgs (od_free_quiet _ _ Hod)) as [Hf Ho].
   split; [exact Hf|]. intros t Ht Hnf. apply (Ho t Ht Hnf).
 Qed.
 Print Assumptions C02_partial_path_inj.
@@ -109,7 +114,7 @@ Example C02_nonvacuous :
   /\ od_free (nv_h ++ [HBuild true nv_rA [s "//p:b"]])
   /\ (forall t, In t (history_targets (nv_h ++ [HBuild true nv_rA [s "//p:b"]])) -> defect_class t = None)
   /\ fg_dir_free (nv_h ++ [HBuild true nv_rA [s "//p:b"]]) = true
-  /\ tool_free_history (nv_h ++ [HBuild true nv_rA [s "//p:b"]]) = true
+  /\ tool_rename_free (nv_h ++ [HBuild true nv_rA [s "//p:b"]]) = true
   /\ rn_log (plz_build true nv_rA [s "//p:b"] (run_history nv_h empty_store)) = []
   /\ outs_of (rn_st (plz_build true nv_rA [s "//p:b"] (run_history nv_h empty_store))) nv_b = [(s "b.out", Some (File false (s "12")))]
   /\ rn_log (plz_build false nv_rA [s "//p:b"] empty_store) = [s "//p:b"; s "//p:a"].
@@ -120,6 +125,37 @@ Proof.
   - split; [|split; [|vm_compute; repeat split]].
     + intros t Ht. cbn in Ht. destruct Ht as [<-|[<-|[<-|[<-|[<-|[<-|[]]]]]]]; reflexivity.
     + intros t Ht. cbn in Ht. destruct Ht as [<-|[<-|[<-|[<-|[<-|[<-|[]]]]]]]; reflexivity.
+Qed.
+
+(* Non-vacuity with TOOLS: gen is a tool of use (ToolNames: the names of the tool's outputs) and of cat (UseTool: the content).
+   Tree A: gen writes "tool" to gen.out; tree B: the output is renamed gen2.out WITH other content; rm -rf plz-out; tree A again.
+   All hypotheses of C02_partial hold (tool_rename_free included) and the last build runs nothing: gen, use and cat are restored
+   from the entries of the first build - use with the names of tree A. *)
+Definition ct_gen (out arg key : str) : target := mkT (s "//p:gen") (s "p") (Genrule (Const arg)) [] [out] key.
+Definition ct_cat : target := mkT (s "//p:cat") (s "p") (Genrule UseTool) [SFile (s "u.txt"); STool (s "//p:gen")] [s "cat.out"] (s "kc").
+Definition ct_rA : repo := mkR [(s "p/u.txt", s "u")] [ct_gen (s "gen.out") (s "tool") (s "k1"); tw_use; ct_cat].
+Definition ct_rB : repo := mkR [(s "p/u.txt", s "u")] [ct_gen (s "gen2.out") (s "tool2") (s "k2"); tw_use; ct_cat].
+Definition ct_req : list str := [s "//p:use"; s "//p:cat"].
+Definition ct_h : list hstep := [HBuild true ct_rA ct_req; HBuild true ct_rB ct_req; HWipe].
+Example C02_nonvacuous_tools :
+  wf_history (ct_h ++ [HBuild true ct_rA ct_req])
+  /\ od_free (ct_h ++ [HBuild true ct_rA ct_req])
+  /\ (forall t, In t (history_targets (ct_h ++ [HBuild true ct_rA ct_req])) -> defect_class t = None)
+  /\ fg_dir_free (ct_h ++ [HBuild true ct_rA ct_req]) = true
+  /\ tool_rename_free (ct_h ++ [HBuild true ct_rA ct_req]) = true
+  /\ length (history_turns (ct_h ++ [HBuild true ct_rA ct_req]) empty_store) = 3
+  /\ rn_log (plz_build true ct_rA ct_req (run_history ct_h empty_store)) = []
+  /\ outs_of (rn_st (plz_build true ct_rA ct_req (run_history ct_h empty_store))) tw_use = [(s "use.out", Some (File false (s "gen.out" ++ nl)))]
+  /\ outs_of (rn_st (plz_build true ct_rA ct_req (run_history ct_h empty_store))) ct_cat = [(s "cat.out", Some (File false (s "tool" ++ nl ++ s "u")))]
+  /\ rn_log (plz_build false ct_rA ct_req empty_store) = [s "//p:cat"; s "//p:use"; s "//p:gen"].
+Proof.
+  split; [split; [vm_compute; reflexivity|]|].
+  - intros t t' Ht Ht' E. cbn in Ht, Ht'.
+    repeat (destruct Ht as [<-|Ht]); try contradiction; repeat (destruct Ht' as [<-|Ht']); try contradiction;
+      try reflexivity; vm_compute in E; discriminate E.
+  - split; [|split; [|vm_compute; repeat split]].
+    + intros t Ht. cbn in Ht. repeat (destruct Ht as [<-|Ht]); try contradiction; reflexivity.
+    + intros t Ht. cbn in Ht. repeat (destruct Ht as [<-|Ht]); try contradiction; reflexivity.
 Qed.
 
 (* ------------------------------------------------------------------------------------------ *)
